@@ -8,6 +8,7 @@ package piece
 // preemption bound, and an oracle judges every execution.
 
 import (
+	gosync "sync"
 	"bytes"
 	"crypto/sha1"
 	"errors"
@@ -58,6 +59,7 @@ type world struct {
 	hashes []hash.Hash
 	base0  int64 // alloc.Bytes() before the store was created
 
+	hmu      gosync.Mutex // harness bookkeeping only (matters in the free-running pass)
 	seq      int
 	log      []*opRec
 	deleted  bool // Del() has returned
@@ -283,11 +285,15 @@ func opExpire(name string, target int64) op {
 
 func opDel() op {
 	return op{"Del", func(w *world, r *opRec) {
+		w.hmu.Lock()
 		if w.delCall == 0 {
 			w.delCall = r.call
 		}
+		w.hmu.Unlock()
 		w.ps.Del()
+		w.hmu.Lock()
 		w.deleted = true
+		w.hmu.Unlock()
 	}}
 }
 
